@@ -442,6 +442,10 @@ def exec_op(env, ops, i, store):
 def same(a, b):
     if a[0] != b[0]:
         return False
+    if a[0] == "exc":
+        # which exception class a failing call raises may depend on which offending item the library meets first (set
+        # iteration order); that it fails is what is compared
+        return True
     if a[0] == "state":
         return interp.state_eq(a[1], b[1])
     return a == b
@@ -500,6 +504,12 @@ def run(ctx):
     elif nested == 1:
         feat["forall_pre"] = True
     W = C.World(ctx, feat)
+    if cfg.chance(1, 4) and W.P["fluents"]:
+        # a partial initial state: some ground fluents have no value yet (legal: they may be assigned later).  The
+        # reference does not define reads of them, so results that depend on them are not compared - purity is.
+        keep = {k: v for k, v in W.P["fluents"].items() if t.chance(2, 3)}
+        W.P = dict(W.P, fluents=keep)
+        ctx.probes["partial_initial_state"] += 1
     nthreads = [1, 2, 2, 3][cfg.draw(4)]
     _, trail = C.ref_walk(ctx, W, 3, t)
     plan_det = bool(trail)
